@@ -51,6 +51,7 @@ def sideOk (dt : Datatype) (s : List Char) : Bool :=
   | .H => s.length % 2 == 0
   | .B => numArrayInRange s
   | .segNameGfa1 => !hasOrientComma s
+  | .oidListGfa1 => (splitOn ',' s).all (fun e => Grammar.oid1.accepts e)
   | .customRecordType => !reservedRecordTypes.contains s
   | _ => true
 
